@@ -73,6 +73,9 @@ STAGES = {
     },
     'C19': {
         'quick': [
+            # a second Dial on a Client whose first connection the server has dropped meanwhile
+            ('redial-after-server-drop', 'Session', cfg(OP='"Dial"', N='1', MAXR='1', BUDGET='1', CAPSETS='{{}}', CLASSES='{"p5", "drop"}', REDIAL='{TRUE}',
+                                                       VARIANTS='{"gone", ""}')),
             # the caller cancels its context right after the transport connection was established
             ('dial-context-cancelled', 'Session', cfg(OP='"Dial"', N='1', MAXR='1', BUDGET='1', CAPSETS='{{}}', CLASSES='{"p5", "drop"}', VARIANTS='{"ctxcancel"}',
                                                       AUTHTYPES='{"NOAUTH", "LOGIN-NOENC"}', AUTHLISTS='{{"LOGIN"}}')),
@@ -125,6 +128,7 @@ STAGES = {
                                                    FALLBACK='BOOLEAN', POLICIES='{"opportunistic", "none"}', STARTTLSADV='{FALSE}')),
             ('dialandsend-stall', 'Session', cfg(OP='"DialAndSend"', N='1', BUDGET='1', CAPSETS='{{}}', CLASSES='{"stall"}')),
             ('reset-stall', 'Session', cfg(OP='"Reset"', N='1', MAXR='1', BUDGET='1', CAPSETS='{{}}', CLASSES='{"stall"}', NONOOP='BOOLEAN')),
+            ('reset-twice-stall', 'Session', cfg(OP='"Reset2"', N='1', MAXR='1', BUDGET='1', CAPSETS='{{}}', CLASSES='{"stall", "drop"}', NONOOP='BOOLEAN')),
         ],
         'thorough': [
             ('dial-stall-b2', 'Session', cfg(OP='"Dial"', N='1', MAXR='1', BUDGET='2', CAPSETS='{{}}', CLASSES='{"stall", "t4"}',
@@ -137,6 +141,8 @@ STAGES = {
                                                    AUTHTYPES='{"NOAUTH", "CRAM-MD5"}', AUTHLISTS='{{"CRAM-MD5"}}')),
             ('dialandsend-stall-b2', 'Session', cfg(OP='"DialAndSend"', N='2', BUDGET='2', CAPSETS='{{}}', CLASSES='{"stall", "p5"}')),
             ('reset-stall', 'Session', cfg(OP='"Reset"', N='1', MAXR='1', BUDGET='2', CAPSETS='{{}}', CLASSES='{"stall", "t4"}', NONOOP='BOOLEAN')),
+            # Reset is called again after a call that ran into the silent server
+            ('reset-twice-stall', 'Session', cfg(OP='"Reset2"', N='1', MAXR='1', BUDGET='1', CAPSETS='{{}}', CLASSES='{"stall", "drop"}', NONOOP='BOOLEAN')),
         ],
     },
     'C16': {
